@@ -1,6 +1,7 @@
 """C16 plug-in of run/reports.py: what the JUnit report files say after a run with --junit.
 
-project(env) -> {"files": [per feature of the program, in program order], "stray": [names of other files], "ran": ran_objects}
+project(env) -> {"files": [per feature of the program, in program order], "stray": [names of other files], "ran": ran_objects,
+                 "names": per element the name of that scenario in the parsed model ("" = no scenario)}
   one entry per feature:  {"f": feature index, "el": abstract id of the feature, "exists": a TESTS-<file stem>.xml is there (or,
      failing that, another TESTS-*.xml whose <testsuite name> ends in this feature's name: "by" = filename / suite_name),
      "wellformed": the independent parser (xml.dom.minidom = expat) accepted it, "parse_error": its message,
@@ -230,4 +231,9 @@ def project(env):
         d = read_report(os.path.join(jdir, name), flat, blocks, names.get(fi))
         d["f"], d["el"], d["file"], d["by"] = fi, fid, name, by
         files.append(d)
-    return {"files": files, "stray": stray, "ran": ran_objects(env)}
+    scen_names = [""] * len(flat["elems"])
+    for lst in names.values():
+        for nm, el in lst:
+            if el:
+                scen_names[el - 1] = nm
+    return {"files": files, "stray": stray, "ran": ran_objects(env), "names": scen_names}
